@@ -134,7 +134,7 @@ pub fn decode_block(bytes: &[u8], name: &str, subdir: &str) -> Value {
             let mut p = payload("ok");
             p["nok"] = json!(blake2b_hex(&raw) == name);
             p["sok"] = json!(name.len() >= 3 && &name[..3] == subdir);
-            p["c"] = json!(raw);
+            p["c"] = json!(crate::tree::abstract_content(&raw));
             p
         }
         Err(_) => payload("garbage"),
